@@ -52,7 +52,8 @@ Lemma write_class_head c d ls : write_class c d = Ok ls ->
   exists rest, ls = (tabs d ++ s_CLASS ++ cSP :: short_name (negb (Nat.eqb d 0)) (cls_key c)
                        ++ (match option_map (short_name (negb (Nat.eqb d 0))) (cls_dst c) with Some t => cSP :: t | None => [] end)) :: rest.
 Proof.
-  unfold write_class. destruct (map_res _ _); cbn [bind]; [|discriminate]. intros [= <-]. eexists. reflexivity.
+  intros H. apply write_class_ok in H as [H _]. revert H.
+  unfold write_class_lines. destruct (map_res _ _); cbn [bind]; [|discriminate]. intros [= <-]. eexists. reflexivity.
 Qed.
 
 (* when figure_out_files succeeds (after the fix: two parent-free classes with one file name are refused) *)
